@@ -776,6 +776,9 @@ func (oa *ordAnalysis) value(fn *ssa.Function, v ssa.Value, origin string) {
 			case n == "builtin:append":
 				oa.value(fn, x, origin)
 			default:
+				if _, isLog := loggerCall(x); isLog {
+					continue // the debug Logger is not an observable output (trusted base)
+				}
 				callee := x.Call.StaticCallee()
 				if callee != nil && callee.Blocks != nil && w.PkgOfFn(callee) != nil {
 					for i, a := range x.Call.Args {
